@@ -41,7 +41,7 @@ def gen_cases(tier, seed):
         o = S.base_options(rng, adaptive=True, steps=60)
         o["field_units"] = ["mT", "uT", "T"][k % 3]
         o["current_units"] = ["uA", "nA", "mA"][k % 3]
-        drive = {"A": S.field_spec(rng, dev, o, ["uniform", "ramp", "uniform"][k % 3], b=0.3), "currents": S.current_spec(rng, dev, o, "const" if nt else "none", strength=0.2)}
+        drive = {"A": S.field_spec(rng, dev, o, ["uniform", "ramp", "loop"][k % 3], b=0.3), "currents": S.current_spec(rng, dev, o, "const" if nt else "none", strength=0.2)}  # (loop: A depends on z)
         cases.append({"layer": "L2", "device": dev, "options": o, "drive": drive, "seed": int(rng.integers(1 << 30)), "cost": 15})
     nw = 1 if tier == "quick" else 4
     for k in range(nw):
@@ -280,6 +280,29 @@ def _l2(spec):
             sc = np.max(np.abs(ref)) + 1e-300
             if np.max(np.abs(np.asarray(parts["applied"]) - ref)) > 1e-9 * sc:
                 viol("applied_part_wrong", {"units": units_, "time_dependent": bool(avp.time_dependent)})
+    # the same lateral positions at OTHER heights, asked of the same Solution object right afterwards (nothing may be remembered per (x, y))
+    P2 = P.copy()
+    P2[:, 2] = dev.layer.z0 + (P[:, 2] - dev.layer.z0) * rng.uniform(1.5, 4.0, len(P))
+    C["repeated_position_checks"] = C.get("repeated_position_checks", 0) + 2
+    parts2 = sol.vector_potential_at_position(P2, units="T * m", with_units=False, return_sum=False)
+    for name, K in (("supercurrent_density", Ks), ("normal_current_density", Kn)):
+        ref2 = em.vector_potential_sheet(P2 * LU[lu], src, K, areas_si)
+        sc2 = np.max(np.abs(ref2)) + 1e-300
+        if float(np.max(np.abs(np.asarray(parts2[name]) - ref2)) / sc2) > 1e-7:
+            viol("solution_potential_ne_direct_sum", {"part": name, "second_call_same_xy_other_heights": True})
+    tot_b = np.asarray(sol.field_at_position(P2, vector=True, units="T", with_units=False))
+    ref_b = em.biot_savart_sheet(P2 * LU[lu], src, Ks + Kn, areas_si)
+    parts_b = sol.field_at_position(P2, vector=True, units="T", with_units=False, return_sum=False)
+    ind_b = np.asarray(parts_b.supercurrent) + np.asarray(parts_b.normal_current)
+    if float(np.max(np.abs(ind_b - ref_b)) / (np.max(np.abs(ref_b)) + 1e-300)) > 1e-7:
+        viol("solution_field_ne_direct_sum", {"second_call_same_xy_other_heights": True})
+    # a vertical line scan (all heights different) in the scalar form
+    Pz = np.stack([np.full(7, P[0, 0]), np.full(7, P[0, 1]), dev.layer.z0 + np.linspace(0.3, 2.0, 7) * ext], axis=1)
+    bz = sol.field_at_position(Pz, vector=False, units="T", with_units=False, return_sum=False)
+    ref_z = em.biot_savart_sheet(Pz * LU[lu], src, Ks + Kn, areas_si)[:, 2]
+    got_z = np.asarray(bz.supercurrent) + np.asarray(bz.normal_current)
+    if float(np.max(np.abs(got_z - ref_z)) / (np.max(np.abs(ref_z)) + 1e-300)) > 1e-7:
+        viol("solution_field_ne_direct_sum", {"vertical_line_scan_scalar_form": True})
     # evaluation points given as an integer-typed array (e.g. np.array([[0, 0, 2]])): same result as the float-typed array
     ext_i = max(2.0, float(np.ptp(pts[:, 0])))
     Pi = np.stack([rng.integers(-int(ext_i), int(ext_i) + 1, 6), rng.integers(-int(ext_i), int(ext_i) + 1, 6), int(np.ceil(abs(dev.layer.z0))) + rng.integers(1, 4, 6)], axis=1).astype(np.int64)
